@@ -15,10 +15,10 @@ import (
 )
 
 type swapSpec struct {
-	pkgRel string
-	fn     string // "Sort", "PermutationIterator.Next"
-	param  string // slot = this parameter ...
-	field  string // ... or this field of the receiver's struct type
+	pkgRel      string
+	fn          string // "Sort", "PermutationIterator.Next"
+	param       string // slot = this parameter ...
+	field       string // ... or this field of the receiver's struct type
 	mayReassign bool
 }
 
